@@ -49,3 +49,4 @@ pub fn run(cfg: &Cfg, rep: &mut Report) -> bool {
   }
   true
 }
+pub mod cross;
